@@ -264,6 +264,54 @@ fn main() {
         }
     }
 
+    // ---- long URLs: many tokens up to the 127-token cut-off (the property speaks about URLs below it;
+    // at and beyond it only the request tokens are compared with the model, which has the same cut-off)
+    // and long byte strings with few tokens; rules filed under a late token, under no token at all
+    // (bucket 0) and removeparam rules without index token
+    {
+        let rules_long: Vec<String> = vec!["/adframe.".into(), "-sponsor".into(), "@@-sponsored-".into(), "-promo$important".into(), "*$removeparam=q".into(), "/zz9/last^".into()];
+        let parsed: Vec<NetworkFilter> = rules_long.iter().filter_map(|l| parse(l)).collect();
+        let e = build(&rules_long, &[], false);
+        let mut urls: Vec<String> = vec![];
+        for k in [60usize, 100, 118, 120, 121, 122, 123, 124, 125, 126, 127, 128, 140] {
+            let segs: String = (0..k).map(|i| format!("s{}x", i)).collect::<Vec<_>>().join("/");
+            for tail in ["/adframe.js", "/x-sponsor/y", "/zz9/last/", "?q=1&k=2", "/a-promo/-sponsored-/"] {
+                urls.push(format!("https://h.example.com/{}{}", segs, tail));
+            }
+        }
+        for n in [500usize, 1900, 2040, 2048, 2060, 4100, 9000] {
+            let payload: String = std::iter::repeat('a').take(n).collect();
+            for tail in ["&next=/adframe.js", "&x=-sponsor", "&q=5", "&next=/zz9/last/"] {
+                urls.push(format!("https://static.example.com/landing?payload={}{}", payload, tail));
+            }
+        }
+        for url in urls {
+            let ty = if url.contains("q=") { "xhr" } else { "script" };
+            let Ok(req) = Request::new(&url, "https://a.com/", ty) else { continue };
+            let got_tokens = req.get_tokens().clone();
+            let low = adblock::request::verif::url_lower_cased(&req).to_string();
+            cs.stat("long_url");
+            cs.case(
+                format!("list_eqb N.eqb (request_tokens seahash {}) {}", hxs(&low), clist(&got_tokens, |x| cn(*x))),
+                json!({"fn": "request_tokens (long URL)", "url_len": url.len(), "tokens": got_tokens.len()}),
+                true,
+            );
+            // below the cut-off the engine must agree with the rule-by-rule evaluation
+            if got_tokens.len() <= 127 {
+                let got = engine_verdict(&e, &req);
+                let want = spec(&parsed, &HashSet::new(), &req);
+                let rw = e.check_network_request(&req).rewritten_url;
+                let rp_hit = parsed.iter().any(|f| f.is_removeparam() && rule_matches(f, &req));
+                let rw_want = if want.important || !rp_hit || !url.contains("q=") { None } else { Some(url.replace("&q=5", "").replace("?q=1&", "?")) };
+                sm.oracle_evaluations += 1;
+                if got != want || (rw.is_some() != rw_want.is_some()) {
+                    sm.failure(None, &format!("long URL ({} bytes, {} tokens): engine says {:?} (rewritten: {}), rule-by-rule evaluation says {:?} (rewritten: {})", url.len(), got_tokens.len() - 1, got, rw.is_some(), want, rw_want.is_some()),
+                        json!({"rules": rules_long, "tags": [], "url": url, "source": "https://a.com/", "type": ty}));
+                }
+            }
+        }
+    }
+
     // ---- plain: the plain paths of check_pattern vs `plain_match` (Tok_Proofs.v), option-free rules
     for _ in 0..(250 * a.scale) {
         let body = gen::segs(&mut r, 1, 3).replace('^', "/").replace('*', "-");
